@@ -122,14 +122,16 @@ class BasePlugin(object):
         """-> list of (case, outcome, flags or None if unserialisable)"""
         outcomes = [self.run_impl(c) for c in cases]
         terms, idx = [], []
+        flags = [None] * len(cases)
         for k, (c, o) in enumerate(zip(cases, outcomes)):
             try:
                 terms.append(self.case_term(c, o))
                 idx.append(k)
+            except common.OutcomeUnserialisable:
+                flags[k] = 1          # counts as a disagreement with the model
             except common.Unserialisable:
                 pass
         wd = common.workdir('%s-%s' % (self.id, tag))
-        flags = [None] * len(cases)
         try:
             if terms:
                 vals = common.run_case_files(wd, self.imports, self.case_type, self.check_fn, terms)
